@@ -432,7 +432,7 @@ func handleISUPPORT(c *Client, e Event) {
 	if tmp, ok = c.GetServerOptionInt("LINELEN"); ok {
 		maxLineLength = tmp
 		c.state.Lock()
-		c.state.maxLineLength = maxTagLength - 2 // -2 for CR-LF.
+		c.state.maxLineLength = tmp - 2 // -2 for CR-LF.
 		c.state.Unlock()
 	}
 
